@@ -266,6 +266,7 @@ def check_case(ck, lib, gm, seed, nsteps, stats):
   stats['cases'] += 1
   stats['sensors'] += ns
   stats['gen_excluded'] = stats.get('gen_excluded', 0) + info.get('excluded_static_acc', 0)
+  stats['rk4_excluded'] = stats.get('rk4_excluded', 0) + info.get('excluded_rk4_delay', 0)
   if nefc > 0:
     stats['nefc>0'] += 1
   labels = ['nefc>0' if nefc else 'nefc=0', 'ncon>0' if int(d.ncon) else 'ncon=0', 'nsteps=%d' % nsteps]
@@ -330,6 +331,79 @@ def static_acc_probe(ck, lib, n):
   ck.extra['static_acc_probe_hits'] = hits[0]
 
 
+DELAY_SENSORS = ['<jointpos joint="j"%s/>', '<jointvel joint="j"%s/>', '<framepos objtype="site" objname="s"%s/>',
+                 '<framelinvel objtype="site" objname="s" reftype="body" refname="a"%s/>', '<accelerometer site="s"%s/>',
+                 '<gyro site="s"%s/>', '<force site="s"%s/>', '<subtreeangmom body="b"%s/>', '<framequat objtype="body" objname="b"%s/>',
+                 '<actuatorfrc actuator="m"%s/>', '<touch site="s"%s/>', '<clock%s/>']
+
+
+@st.composite
+def delay_cases(draw):
+  """Two-link arm on a floor; one sensor with delay = k timesteps (timestep 2^-9: all times exact), optionally a second
+  acceleration-stage sensor; every integrator."""
+  integ = draw(st.sampled_from(['Euler', 'RK4', 'implicit', 'implicitfast']))
+  k = draw(st.integers(1, 3))
+  ns = k + draw(st.integers(1, 2))
+  sens = draw(st.sampled_from(DELAY_SENSORS))
+  interp = draw(st.sampled_from(['', ' interp="zoh"']))
+  other = draw(st.sampled_from(['', '<framelinacc objtype="site" objname="s"/>', '<torque site="s"/>',
+                                '<user dim="1" needstage="acc"/>']))
+  first = draw(st.booleans())
+  h = 2.0 ** -9
+  base = ('<mujoco><option timestep="%r" integrator="%s"/><worldbody><geom type="plane" size="2 2 .1"/>'
+          '<body name="a" pos="0 0 %s"><joint name="j" type="hinge" axis="0 1 0" damping="%s"/>'
+          '<geom type="capsule" fromto="0 0 0 .3 0 0" size=".04"/><body name="b" pos=".3 0 0">'
+          '<joint name="j2" type="%s" axis="0 0 1"/><geom type="sphere" size=".06" pos=".1 0 0"/>'
+          '<site name="s" pos=".1 0.02 0" size=".1" quat="%s"/></body></body></worldbody>'
+          '<actuator><motor name="m" joint="j" gear="%s"/></actuator>' % (
+              h, integ, mg.fmt(draw(mg.num(0.05, 0.6))), mg.fmt(draw(mg.num(0, 1))),
+              draw(st.sampled_from(['hinge', 'ball'])), mg.fmt(draw(mg.unit_quat())), mg.fmt(draw(mg.num(0.5, 3, 1)))))
+  dl = ' nsample="%d" delay="%r"%s' % (ns, k * h, interp)
+  a, b = sens % dl, sens % ''
+  def block(x):
+    return '<sensor>%s</sensor></mujoco>' % ((other + x) if first else (x + other))
+  return dict(integ=integ, k=k, delayed=base + block(a), plain=base + block(b), idx=(1 if (first and other) else 0),
+              seed=draw(mg.state_seed()), nsteps=k + draw(st.integers(0, 4)), sensor=a)
+
+
+def delay_probe(ck, lib, n):
+  """CSensor/delay: 'sensor values in sensordata are read from the history buffer at time - delay'.  With delay = k
+  timesteps and zero-order hold the delayed reading at time t is the undelayed reading of the same model at t - k h,
+  bit for bit (both are produced by the same sensor code on the same state)."""
+  hits = [0]
+
+  def test(c):
+    m1 = lib.model_from_xml(c['delayed'])
+    m2 = lib.model_from_xml(c['plain'])
+    d1, d2 = lib.make_data(m1), lib.make_data(m2)
+    for d, m in ((d1, m1), (d2, m2)):
+      mg.apply_state(lib, m, d, c['seed'], pos_scale=0.5)
+    i = c['idx']
+    a1, n1 = int(m1.sensor_adr[i]), int(m1.sensor_dim[i])
+    a2 = int(m2.sensor_adr[i])
+    past = []
+    for step in range(c['nsteps'] + 1):
+      lib.mj_forward(m1, d1)
+      lib.mj_forward(m2, d2)
+      past.append(np.array(d2.sensordata[a2:a2 + n1]))
+      if step >= c['k']:
+        got = np.array(d1.sensordata[a1:a1 + n1])
+        want = past[step - c['k']]
+        if not np.array_equal(bits(got), bits(want)):
+          msg = ('%s (integrator %s): reading at t=%g is %r, the undelayed sensor read %r at t - delay (and %r now)\n%s'
+                 % (c['sensor'], c['integ'], d1.time, got.tolist(), want.tolist(), past[step].tolist(), c['delayed']))
+          if c['integ'] == 'RK4':
+            ck.violation(msg, c, bucket='known:rk4-delay', fingerprint='C28:rk4-delay')
+            hits[0] += 1
+            return
+          raise Violation(msg, bucket='delay:' + c['integ'])
+      lib.mj_step(m1, d1)
+      lib.mj_step(m2, d2)
+    ck.case(nontrivial=False, key=(c['delayed'], c['seed']), labels=['delay-probe', 'delay-probe:' + c['integ']])
+  ck.run_hypothesis(test, delay_cases(), n, name='delay-probe')
+  ck.extra['rk4_delay_probe_hits'] = hits[0]
+
+
 def main(ck):
   import collections
   lib = ck.lib('rel')
@@ -361,6 +435,7 @@ def main(ck):
     check_case(ck, lib, gm, seed, nsteps, stats)
   ck.run_hypothesis(test, strat, ck.budget(260, 12000), name='sensors')
   static_acc_probe(ck, lib, ck.budget(20, 300))
+  delay_probe(ck, lib, ck.budget(40, 600))
   ck.extra['coverage_by_type_object_reference_level'] = dict(sorted(stats['cov'].items()))
   ck.extra['worst_error_over_tolerance_by_class'] = stats['worst']
   ck.extra['deep_and_nefc_by_type'] = dict(stats['deep'])
@@ -369,6 +444,7 @@ def main(ck):
   ck.extra['sensors_evaluated'] = stats['sensors']
   ck.extra['static_acc_exclusions'] = dict(stats['findings'])
   ck.extra['static_acc_exclusions']['generator_candidates_removed'] = stats['gen_excluded']
+  ck.extra['rk4_delay_exclusions'] = stats.get('rk4_excluded', 0)
 
 
 LEVEL = 'exploration'
